@@ -392,6 +392,37 @@ def run(ctx):
                     bad("after assigning another recovery curve to the forecaster, forecast_cum is not M times the current curve at time/tau", inp_r, dict(max_abs_diff=float(np.abs(got - y).max())))
             except Exception as e:  # noqa: BLE001
                 bad("fit fails after new (well-formed) bounds were assigned to the forecaster", inp_r, repr(e)[:200])
+    # ---------------- two wells fitted one after the other on ONE forecaster (tabulated curve whose table ends at scaled time 40): the
+    # first in years (tau of a few units), the second in days with every sample beyond the END of the table when scaled by the FIRST
+    # well's tau.  The round trip of the second well must not depend on the first (a fit that starts from the previous optimum sits on
+    # the flat tail of the curve, where tau has no gradient); checked against the generating values whenever a fresh object recovers them
+    for k in range(3 if ctx.quick else 12):
+        for cname in ("ideal", "real gas"):
+            rf = crv[cname]
+            MA, tauA = dom.loguniform(rng, 1e2, 1e4), float(rng.uniform(0.5, 4.0))
+            MB, tauB = dom.loguniform(rng, 1e2, 1e4), float(rng.uniform(400.0, 1500.0))
+            tA = np.linspace(tauA / 40, 2.0 * tauA, 60)
+            tB = np.linspace(max(tauB / 30, 45.0 * tauA), 2.0 * tauB, 60)          # tB / tauA > 40 for every sample
+            yA, yB = MA * np.asarray(rf(tA / tauA), float), MB * np.asarray(rf(tB / tauB), float)
+            inp_h = dict(curve=cname, first_well=dict(M=MA, tau=tauA, times=f"linspace({tA[0]:.4g}, {tA[-1]:.4g}, 60)"),
+                         second_well=dict(M=MB, tau=tauB, times=f"linspace({tB[0]:.4g}, {tB[-1]:.4g}, 60)"), history="fit(first well); fit(second well) on the same object")
+            with warnings.catch_warnings():
+                warnings.simplefilter("ignore")
+                try:
+                    fresh = ForecasterOnePhase(rf)
+                    fresh.fit(tB, yB)
+                    same = ForecasterOnePhase(rf)
+                    same.fit(tA, yA)
+                    same.fit(tB, yB)
+                except Exception as e:  # noqa: BLE001
+                    bad("fit fails on noise-free production of a second well", inp_h, repr(e)[:200])
+                    continue
+            ev += 1
+            fresh_ok = dom.relclose(fresh.M_, MB, 5e-3) and dom.relclose(fresh.tau_, tauB, 5e-3)
+            same_ok = dom.relclose(same.M_, MB, 5e-3) and dom.relclose(same.tau_, tauB, 5e-3)
+            if fresh_ok and not same_ok:
+                bad("a second fit on the same forecaster does not recover the M and tau that generated the (noise-free) production, although a fresh forecaster does: the result depends on the earlier fit",
+                    inp_h, dict(same_object=dict(M=float(same.M_), tau=float(same.tau_)), fresh_object=dict(M=float(fresh.M_), tau=float(fresh.tau_))))
     # ---------------- Bounds validation and guess regularisation
     for k in range(60 if ctx.quick else 1500):
         lo, hi = sorted(rng.uniform(-5, 5, 2))
